@@ -90,7 +90,7 @@ Fixpoint df (p : alg) : bool :=
   | Join _ a b | LeftJoin _ a b _ => df a && df b && un a && un b
   | Filter _ _ _ q => df q
   | Minus a _ => df a
-  | Extend _ q _ _ => df q
+  | Extend _ q v _ => df q && negb (memv v (maybe q))
   | Union _ _ => false
   | Project q vs => df q && subsetv (maybe q) vs
   | Graph (Tm _) q => df q
